@@ -143,3 +143,29 @@ Proof.
   cbn in H. discriminate H. auto 40.
 Qed.
 
+
+(* ------------------------------------------------------------------------------------ *)
+(* the pooled requestStream object                                                      *)
+(* ------------------------------------------------------------------------------------ *)
+
+Ltac rs_fields_all :=
+  intros; match goal with H : In _ rs_fields |- _ =>
+    unfold rs_fields in H; repeat (destruct H as [<-|H]; [vm_compute; reflexivity|]); contradiction end.
+
+(* releaseRequestStream leaves EVERY field of the object zero, whatever the stream's state was *)
+Theorem rs_release_is_fresh : forall m f, In f rs_fields -> releaseRequestStream_m m f = 0.
+Proof. rs_fields_all. Qed.
+
+(* so the stream a request gets from the pool is the stream it would get from a new object *)
+Theorem rs_acquire_after_release_is_new : forall v m f, In f rs_fields ->
+  acquireRequestStream_m v (releaseRequestStream_m m) f = acquireRequestStream_m v zero f.
+Proof. rs_fields_all. Qed.
+
+(* acquireRequestStream itself clears nothing: totalBytesRead, chunkLeft, eof and err are taken over
+   from the previous user as they are, so the statement above rests on the release alone *)
+Theorem rs_acquire_trusts_the_pool : forall v m,
+  acquireRequestStream_m v m "requestStream.totalBytesRead" = m "requestStream.totalBytesRead" /\
+  acquireRequestStream_m v m "requestStream.chunkLeft" = m "requestStream.chunkLeft" /\
+  acquireRequestStream_m v m "requestStream.eof" = m "requestStream.eof" /\
+  acquireRequestStream_m v m "requestStream.err" = m "requestStream.err".
+Proof. intros. repeat split; vm_compute; reflexivity. Qed.
